@@ -1007,7 +1007,10 @@ def gen_expr(rng, depth=0, ctx_yield=False):
     if k == 22 and ctx_yield:
         return rng.choice([f"(yield {e()})", "(yield)", f"(yield from {e()})"])
     if k == 23:
-        return f"'lit'.{rng.choice(['join', 'format'])}({e()})"
+        # attributes of literals of every type (the builder links the name to "str" whatever the literal is; so does the loader)
+        lit = rng.choice(["'lit'", "'lit'", "b'x'", "(8)", "1.5", "True", "None", "..."])
+        attr = rng.choice(["join", "format", "bit_length", "hex", "real"])
+        return f"{lit}.{attr}({e()})" if rng.random() < 0.6 else f"{lit}.{attr}"
     if k == 24:
         return f"{rng.choice(LOCAL_NAMES)}.{rng.choice(['a', 'b'])}({e()}).{rng.choice(['c', 'd'])}"
     return gen_annotation(rng, depth + 1)
@@ -1280,6 +1283,13 @@ def write_package(ctx, rng, with_findings=True, namespace=False, no_docstrings=F
     files["sub.py"] = gen_module_source(rng, name, False, with_findings) + "__all__ = ['Foo', 'Bar']\n"
     files["_impl.py"] = "def impl_func(a, b=1): return a\nclass ImplClass: pass\n_hidden = 1\n"
     files["sp/__init__.py"] = '"""Sub package."""\nfrom ..sub import Foo\nclass Deep(Foo):\n    """Deep."""\n    def go(self, x: Foo = None) -> "Foo": ...\n'
+    # a module with a stubs file next to it: the loader merges the two; classes and functions declared only in the stubs are
+    # moved into the concrete module, annotations come from the stubs
+    files["stubbed.py"] = ('"""Concrete."""\nclass Both:\n    """Both."""\n    def meth(self, a, b=1):\n        """Meth."""\n        return a\n'
+                           'def plain(x, y=2):\n    """Plain."""\n    return x\nVALUE = 3\n')
+    files["stubbed.pyi"] = ('from typing import List, Optional\nclass Both:\n    attr: List[int]\n    def meth(self, a: int, b: Optional[int] = ...) -> List[int]: ...\n'
+                            'class OnlyInStubs:\n    """Stubs only."""\n    field: Optional[Both]\n    def go(self, q: List[Both] = ...) -> Both: ...\n'
+                            'def plain(x: int, y: int = ...) -> int: ...\ndef stub_func(z: Both) -> None: ...\nVALUE: int\n')
     files["chain.py"] = gen_chain_source(rng, name, namespace)
     files["cyc.py"] = '"""Cyclic re-export."""\nfrom .chain import loop\nfrom .chain import Foo3 as Foo4\n'
     if rng.random() < 0.5:
@@ -1538,10 +1548,17 @@ def stream_special(ctx):
     if not extra.exists():
         (root2 / os.listdir(root2)[0]).rename(extra)
     (extra / "only_here.py").write_text("Y = 2\n")
-    obj = griffe.load(name, search_paths=[str(root), str(root2)], allow_inspection=False)
-    check_tree(ctx, obj, {"agent": "visit", "package": name, "namespace": True, "portions": 2, "files": files}, stream="namespace/2-portions", every_cwd=True)
-    if not (isinstance(obj.filepath, list) and len(obj.filepath) == 2):
-        ctx.tie_failure("harness", "two namespace portions expected", {"filepath": str(obj.filepath)})
+    orders = []
+    for paths in ([str(root), str(root2)], [str(root2), str(root)]):      # the order of the search paths is the order of the portions
+        obj = griffe.load(name, search_paths=paths, allow_inspection=False)
+        check_tree(ctx, obj, {"agent": "visit", "package": name, "namespace": True, "portions": 2, "search_paths": paths, "files": files},
+                   stream="namespace/2-portions", every_cwd=True)
+        if not (isinstance(obj.filepath, list) and len(obj.filepath) == 2):
+            ctx.tie_failure("harness", "two namespace portions expected", {"filepath": str(obj.filepath)})
+        orders.append([str(p) for p in obj.filepath])
+    if len(orders) == 2 and orders[0] != orders[1][::-1]:
+        ctx.tie_failure("harness", "namespace portions expected in search-path order", {"orders": orders})
+    ctx.observe("namespace_portion_order", "both orders" if len(orders) == 2 and sorted(orders[0]) in (orders[0], orders[1]) and orders[0] != orders[1] else "one order")
     if not isinstance(obj.filepath, list):
         ctx.tie_failure("harness", "namespace package expected", {"filepath": str(obj.filepath)})
     for mod in ("math", "itertools") if ctx.quick else ("math", "itertools", "_json", "time", "zlib"):
